@@ -69,6 +69,7 @@ type ACase struct {
 	Label    bool   `json:"label,omitempty"`
 	OwnTmpl  bool   `json:"owntmpl,omitempty"`
 	OtherUID bool   `json:"otheruid,omitempty"`
+	TmplUID  bool   `json:"tmpluid,omitempty"`
 	// C
 	Old string `json:"old,omitempty"`
 	New string `json:"new,omitempty"`
@@ -138,6 +139,7 @@ type admWorld struct {
 	jcv  *jobconfigvalidatingwebhook.Webhook
 	adm  *sw.Admission
 	jc1  *execution.JobConfig
+	jc1r *execution.JobConfig // the same JobConfig with the reserved JobConfig-UID label in its template labels
 	base *execution.Job
 	n    int
 }
@@ -177,6 +179,15 @@ func newAdmWorld() (*admWorld, error) {
 	for w.Inf.JobConfigs.Deliver() {
 	}
 	a.jc1 = w.API.Get("jobconfigs", ns, "jc1").(*execution.JobConfig)
+	jcr := jc.DeepCopy()
+	jcr.ObjectMeta = metav1.ObjectMeta{Name: "jc1r", Namespace: ns}
+	jcr.Spec.Template.Labels[jobconfig.LabelKeyJobConfigUID] = "00000000-another-jobconfig"
+	if _, err := w.API.Direct("user", ktesting.NewCreateAction(sw.JobConfigsGVR, ns, jcr)); err != nil {
+		return nil, err
+	}
+	for w.Inf.JobConfigs.Deliver() {
+	}
+	a.jc1r = w.API.Get("jobconfigs", ns, "jc1r").(*execution.JobConfig)
 	return a, nil
 }
 
@@ -395,7 +406,12 @@ func (a *admWorld) famB(c ACase) ALine {
 	if len(labels) > 0 {
 		meta["labels"] = labels
 	}
-	spec := map[string]interface{}{"configName": c.CfgName}
+	target := a.jc1
+	cfgName := c.CfgName
+	if c.TmplUID && c.CfgName == "jc1" {
+		target, cfgName = a.jc1r, "jc1r"
+	}
+	spec := map[string]interface{}{"configName": cfgName}
 	if c.Policy == "sa" { // a startPolicy that only postpones the Job (what `furiko run --at` submits): no concurrency policy given
 		spec["startPolicy"] = map[string]interface{}{"startAfter": "2033-05-18T03:33:20Z"}
 	} else if c.Policy != "" {
@@ -434,9 +450,12 @@ func (a *admWorld) famB(c ACase) ALine {
 	b.Ok = true
 	if ref := metav1.GetControllerOf(&rj); ref != nil && len(rj.OwnerReferences) == 1 {
 		b.Owner = ref.Name
+		if ref.Name == target.Name && ref.UID == target.UID {
+			b.Owner = "jc1" // the JobConfig the request named
+		}
 	}
 	switch rj.Labels[jobconfig.LabelKeyJobConfigUID] {
-	case string(a.jc1.UID):
+	case string(target.UID):
 		b.UIDLabel = "jc1"
 	default:
 		b.UIDLabel = "other:" + rj.Labels[jobconfig.LabelKeyJobConfigUID]
@@ -451,6 +470,9 @@ func (a *admWorld) famB(c ACase) ALine {
 	}
 	b.OptA = rj.Spec.Substitutions["option.a"]
 	b.JcName = rj.Spec.Substitutions["jobconfig.name"]
+	if b.JcName == target.Name {
+		b.JcName = "jc1"
+	}
 	b.Cleared = rj.Spec.ConfigName == ""
 	b.Fin = finClass(rj.Finalizers)
 	b.Label = rj.Labels["team"]
